@@ -954,6 +954,9 @@ impl<'t, 'a> Gen<'t, 'a> {
             if simple_only { 0 } else { 3 },  // 20 recursion
             2,  // 21 var
         ];
+        if self.o.reserved_prefix.is_some() && self.t.chance(50) {
+            return self.reserved_plant(d);
+        }
         let mut w = w;
         if self.o.focus_reentrancy && !simple_only {
             w[11] = 14;
@@ -1190,6 +1193,99 @@ impl<'t, 'a> Gen<'t, 'a> {
                 let s = format!("var {} = {};", v, Self::arg_text(&e));
                 self.scm().vars.push(v);
                 s
+            }
+        }
+    }
+
+    /// C06 refusal mode: a name with the reserved prefix (or a look-alike) somewhere the grammar has an identifier
+    fn reserved_plant(&mut self, d: usize) -> String {
+        let prefix = self.o.reserved_prefix.clone().unwrap_or_else(|| "test".into());
+        let k = self.t.below(3);
+        let real = format!("__datadog_{prefix}_{k}");
+        let e = self.expr(d.min(2));
+        let et = Self::arg_text(&e);
+        let e2 = self.plus(d.min(2));
+        let e2t = Self::arg_text(&e2);
+        match self.t.below(16) {
+            14 => {
+                self.tag("reserved-ident");
+                self.tag("reserved:only-in-arrow-default");
+                format!("x = ((p = typeof {real}) => p + {e2t})() + {et};")
+            }
+            15 => {
+                self.tag("reserved-ident");
+                self.tag("reserved:only-in-delete-operand");
+                format!("try {{ delete {real}.p; }} catch {{ }}\nx = {e2t};")
+            }
+            0 => {
+                self.tag("reserved-ident");
+                self.tag("reserved:binding");
+                format!("const {real} = {et};\nx = {real} + {e2t};")
+            }
+            1 => {
+                self.tag("reserved-ident");
+                self.tag("reserved:reference");
+                format!("x = typeof {real} + {e2t};")
+            }
+            2 => {
+                self.tag("reserved-ident");
+                self.tag("reserved:parameter");
+                format!("x = (function ({real}) {{ return {real} + {e2t}; }})({et});")
+            }
+            3 => {
+                self.tag("reserved-ident");
+                self.tag("reserved:arrow-parameter");
+                format!("x = (({real}) => {real} + {e2t})({et});")
+            }
+            4 => {
+                self.tag("reserved-ident");
+                self.tag("reserved:arrow-default");
+                format!("let {real} = {et};\nx = ((p = {real}) => p + {e2t})();")
+            }
+            5 => {
+                self.tag("reserved-ident");
+                self.tag("reserved:catch");
+                format!("try {{ x = {e2t}; throw 1; }} catch ({real}) {{ y = {real} + {e2t}; }}")
+            }
+            6 => {
+                self.tag("reserved-ident");
+                self.tag("reserved:label");
+                format!("{real}: for (let ri = 0; ri < 1; ri++) {{ x = {e2t}; break {real}; }}")
+            }
+            7 => {
+                self.tag("reserved-ident");
+                self.tag("reserved:delete-operand");
+                format!("var {real} = {{p: {et}}};\ndelete {real}.p;\nx = {e2t};")
+            }
+            8 => {
+                self.tag("reserved-harmless");
+                self.tag("reserved:property-key");
+                format!("x = {{{real}: {et}}}.{real} + {e2t};")
+            }
+            9 => {
+                self.tag("reserved-harmless");
+                self.tag("reserved:member-name");
+                format!("x = o.{real} + {e2t};")
+            }
+            10 => {
+                self.tag("reserved-harmless");
+                self.tag("reserved:string");
+                format!("x = '{real}' + {e2t};")
+            }
+            11 => {
+                self.tag("reserved-harmless");
+                self.tag("reserved:other-prefix");
+                format!("const __datadog_zzzzzz_0 = {et};\nx = __datadog_zzzzzz_0 + {e2t};")
+            }
+            12 => {
+                self.tag("reserved-ident");
+                self.tag("reserved:destructuring");
+                format!("const {{p: {real} = {et}}} = Object({e2t});\ny = {real};")
+            }
+            _ => {
+                self.tag("reserved-ident");
+                self.tag("reserved:function-name");
+                format!("function {real}() {{ return {et}; }}\nx = {real}() + {e2t};")
             }
         }
     }
